@@ -9,6 +9,13 @@
              thread-local cell (SERIALIZE_MODE): each thread has its own ([tmd]).
              Before, it was Config::serialize_mode : Arc<RwLock<SerializeMode>>, shared
              by every clone of the store's Config, i.e. ONE cell per store ([md]).
+             A [thread] of this model is a READER, i.e. a sequence of logical calls; the mode
+             belongs to the call that set it (set at the start of ToJson::to_json_string /
+             to_json_file, set back at its end).  The thread-local cell implements that as long
+             as a call runs on one operating-system thread without that thread running anything
+             else in between; a call that waits inside a rayon pool (work stealing) would break
+             it - the library does not do that while the mode is NoInclude, which the run samples
+             on a real shared pool and nothing here proves.
              Both designs are modelled: every definition takes [sh : bool],
              sh = false  the mode is confined to the thread (the code as it is now),
              sh = true   the mode is one shared cell (the code as it was; kept because it
